@@ -951,7 +951,11 @@ impl Xot {
     /// If that id does not exist, returns [`None`].
     pub fn xml_id_node(&self, document_node: Node, value: &str) -> Option<Node> {
         let value_nodes = self.id_nodes_map.get(&document_node.get())?;
-        value_nodes.get(value).map(|node_id| Node::new(*node_id))
+        value_nodes
+            .get(value)
+            .map(|node_id| Node::new(*node_id))
+            // the index is filled at parse time; the element may be gone by now
+            .filter(|node| !self.is_removed(*node))
     }
 }
 
